@@ -15,6 +15,7 @@ META = {
                    ' R03.7 a &mut into a box is taken only by the constructor that has just allocated it or on the IndexSet path (reachable values stay unchanged, nothing is recycled).',
     'not_decided': ['that a particular heap graph survives (run-time reachability)', 'cyclic arrays in Display', 'cross-run lifetimes (C17)'],
 }
+META['explanation'] += ' R03.8 no object is released twice: free_recursive frees an object only after a set answered `first time` for it when it is taken from the work list (shared with R04.5); a work-list walk is left only when the list is empty.'
 GCN = 'gc::GC::'
 
 
